@@ -168,12 +168,16 @@ theorem ask_l (cfg : Cfg) (v : Option St) (r : Req) (hk : inertK r.kind = true) 
   · rename_i hr _
     exact step_inert_ok cfg _ r _ hk (fun e d h => hr e d h)
 
+theorem askHook_l (cfg : Cfg) (v : Option St) (r : Req) (hk : inertK r.kind = true) :
+    ⦃fun w => ⌜view cfg w = v⌝⦄ askHook r ⦃leafPost cfg v⦄ :=
+  askHook_triple r (ask_l cfg v r hk) (fun w h => presil_cases (fun w => view cfg w = v) w (fun _ => h))
+
 /-- `emit` leaves the retry state alone -/
 theorem emit_rs (P : RState → Prop) (cfg : Cfg) (tl : Bool) (ev : Event) (a s : Nat) (k : Option EClass)
     (e : Option Exn) (st : Option StopReason) (c : Option Cause) (cl : Option Classification) :
     ⦃fun w => ⌜P w.rs⌝⦄ emit cfg tl ev a s k e st c cl
     ⦃post⟨fun _ w => ⌜P w.rs⌝, fun _ w => ⌜P w.rs⌝⟩⦄ := by
-  mvcgen [emit, metricHook, recordTimeline, swallowException, askMetric, askLog, ask]
+  mvcgen [emit, metricHook, recordTimeline, swallowException, askMetric, askLog, askHook]
   all_goals (subst_vars; simp_all)
 
 /-- `_abort_outcome` reports ABORTED -/
@@ -217,8 +221,11 @@ theorem ask_org (r : Req) (hr : isOp r = false) : ⦃fun _ => ⌜True⌝⦄ ask 
   mvcgen [ask]
   all_goals (intros; exact ⟨_, List.mem_cons_self, hr, _, rfl⟩)
 
+theorem askHook_org (r : Req) (hr : isOp r = false) : ⦃fun _ => ⌜True⌝⦄ askHook r ⦃orgPost⦄ :=
+  askHook_triple r (ask_org r hr) (fun _ h => h)
+
 section origin
-attribute [local spec] ask_org
+attribute [local spec] ask_org askHook_org
 
 macro "org_close" : tactic => `(tactic| all_goals (
   (try subst_vars) <;> (try intros) <;>
@@ -369,7 +376,7 @@ theorem errL_abort {cfg : Cfg} {v : Option St} {e : Exn} {w : World} (h : ErrL c
   · simp [isCancelKind_not_abort hk] at he
 
 section leafL
-attribute [local spec] ask_l
+attribute [local spec] ask_l askHook_l
 
 macro "l_close" : tactic => `(tactic| all_goals (
   (try subst_vars) <;> (try intros) <;> (try simp +zetaDelta only [restore_dummy, view] at *) <;>
